@@ -168,7 +168,8 @@ theorem renamescript_congr (a b : Client) (h : SameC a b) (old new : Bytes) :
   simp only [hcap]
   split
   · exact okOf_congr _ _ (sendCommand_congr a b h _ _ _ _)
-  · have h1 := listscripts_congr a b h
+  · unfold emulatedRename
+    have h1 := listscripts_congr a b h
     revert h1
     generalize listscripts a = x1
     generalize listscripts b = y1
@@ -223,7 +224,7 @@ theorem renamescript_congr (a b : Client) (h : SameC a b) (old new : Bytes) :
                   cases okb with
                   | false => exact ⟨rfl, hc3⟩
                   | true =>
-                    simp only
+                    simp only [activateIfNeeded]
                     by_cases hact : active == some old
                     · simp only [hact, if_true]
                       have h4 := setactive_congr c3 d3 hc3 new
